@@ -39,6 +39,9 @@ type Check struct {
 	Replay func(c *Ctx, raw json.RawMessage) (sig, detail string)
 	// Shards returns the number of worker processes for a tier (0 = number of CPUs).
 	Shards func(tier string) int
+	// WorkerBin, if set, names the binary that runs shard i (default: this binary). Used to run the
+	// non-concurrent part of a check with the plain build while the rest uses the race build.
+	WorkerBin func(shard int) string
 	// Budget is the internal time budget per tier (a worker that exceeds it stops and reports
 	// exhaustive=false; it is never a verdict).
 	Budget func(tier string) time.Duration
@@ -359,9 +362,17 @@ func parent(ck *Check, tier string, seed int64) int {
 			out := filepath.Join(work, fmt.Sprintf("shard%d.json", i))
 			scr := filepath.Join(work, fmt.Sprintf("scratch%d", i))
 			_ = os.MkdirAll(scr, 0o777)
-			cmd := exec.Command(os.Args[0], ck.ID, "--tier", tier, "--shard", fmt.Sprintf("%d/%d", i, n), "--out", out,
+			bin := os.Args[0]
+			if ck.WorkerBin != nil {
+				if b := ck.WorkerBin(i); b != "" {
+					bin = b
+				}
+			}
+			cmd := exec.Command(bin, ck.ID, "--tier", tier, "--shard", fmt.Sprintf("%d/%d", i, n), "--out", out,
 				"--scratch", scr, "--deadline", strconv.FormatInt(deadline.UnixNano(), 10))
-			cmd.Env = append(os.Environ(), "GOMEMLIMIT=6GiB", "VERIF_SEED="+strconv.FormatInt(seed, 10))
+			cmd.Env = append(os.Environ(), "GOMEMLIMIT=6GiB", "VERIF_SEED="+strconv.FormatInt(seed, 10),
+				// race builds: reports go to a file the worker inspects after every execution (ignored by non-race builds)
+				"GORACE=log_path="+filepath.Join(scr, "race.log")+" halt_on_error=0 exitcode=0 history_size=2")
 			var stderr bytes.Buffer
 			cmd.Stderr = &limitedWriter{w: &stderr, n: 1 << 20}
 			cmd.Stdout = &limitedWriter{w: &stderr, n: 1 << 20}
@@ -631,3 +642,18 @@ func tail(s string, n int) string {
 	}
 	return "…" + s[len(s)-n:]
 }
+
+// RaceLog returns the race detector's report file content of this worker ("" if none / not a race build).
+func (c *Ctx) RaceLog() string {
+	ms, _ := filepath.Glob(filepath.Join(c.Scratch, "race.log.*"))
+	var sb strings.Builder
+	for _, m := range ms {
+		if b, err := os.ReadFile(m); err == nil {
+			sb.Write(b)
+		}
+	}
+	return sb.String()
+}
+
+// Sub re-shards the context: the worker acts as shard i of n for Mine().
+func (c *Ctx) Sub(i, n int) { c.Shard, c.N = i, n }
